@@ -5,10 +5,11 @@ package proto
 
 // Cmd is one command sent to a box.
 type Cmd struct {
-	Op    string  `json:"op"` // info | check | block | dump | valset | quit
-	Tx    []byte  `json:"tx,omitempty"`
-	Block *Recipe `json:"block,omitempty"`
-	Full  bool    `json:"full,omitempty"` // dump: full dump instead of delta
+	Op    string   `json:"op"` // info | check | block | dump | valset | quit
+	Tx    []byte   `json:"tx,omitempty"`
+	Block *Recipe  `json:"block,omitempty"`
+	Full  bool     `json:"full,omitempty"`  // dump: full dump instead of delta
+	Addrs []string `json:"addrs,omitempty"` // evm: hex addresses to read through the EVM state adapter
 }
 
 // EvidenceSpec asks the box to include real duplicate-vote evidence against
@@ -83,21 +84,22 @@ type Val struct {
 
 // Resp is one answer from a box.
 type Resp struct {
-	Op         string `json:"op"`
-	Err        string `json:"err,omitempty"`          // harness-level failure (box could not do what was asked)
-	ApplyErr   string `json:"apply_err,omitempty"`    // Tendermint refused the block / validator updates
-	Height     int64  `json:"height"`                 // Tendermint state height after the command
-	AppHash    string `json:"app_hash,omitempty"`     // Tendermint state app hash, hex
-	AppHeight  int64  `json:"app_height,omitempty"`   // application's own committed version
-	AppAppHash string `json:"app_app_hash,omitempty"` // application's own committed hash, hex
-	BlockTime  int64  `json:"block_time,omitempty"`   // unix ms of last block
-	Proposer   string `json:"proposer,omitempty"`     // hex address of the proposer of the block just applied
-	Calls      []Call `json:"calls,omitempty"`
-	Dump       []KV   `json:"dump,omitempty"`
-	DumpFull   bool   `json:"dump_full,omitempty"`
-	Vals       []Val  `json:"vals,omitempty"`      // current validator set (valset)
-	NextVals   []Val  `json:"next_vals,omitempty"` // next validator set
-	LastVals   []Val  `json:"last_vals,omitempty"`
-	Panicked   bool   `json:"panicked,omitempty"` // "panic in controller" marker seen on the app's stdout
-	IndexWait  bool   `json:"index_timeout,omitempty"`
+	Op         string               `json:"op"`
+	Err        string               `json:"err,omitempty"`          // harness-level failure (box could not do what was asked)
+	ApplyErr   string               `json:"apply_err,omitempty"`    // Tendermint refused the block / validator updates
+	Height     int64                `json:"height"`                 // Tendermint state height after the command
+	AppHash    string               `json:"app_hash,omitempty"`     // Tendermint state app hash, hex
+	AppHeight  int64                `json:"app_height,omitempty"`   // application's own committed version
+	AppAppHash string               `json:"app_app_hash,omitempty"` // application's own committed hash, hex
+	BlockTime  int64                `json:"block_time,omitempty"`   // unix ms of last block
+	Proposer   string               `json:"proposer,omitempty"`     // hex address of the proposer of the block just applied
+	Calls      []Call               `json:"calls,omitempty"`
+	Dump       []KV                 `json:"dump,omitempty"`
+	DumpFull   bool                 `json:"dump_full,omitempty"`
+	Vals       []Val                `json:"vals,omitempty"`      // current validator set (valset)
+	NextVals   []Val                `json:"next_vals,omitempty"` // next validator set
+	LastVals   []Val                `json:"last_vals,omitempty"`
+	Panicked   bool                 `json:"panicked,omitempty"` // "panic in controller" marker seen on the app's stdout
+	IndexWait  bool                 `json:"index_timeout,omitempty"`
+	Evm        map[string][2]string `json:"evm,omitempty"` // evm: hex address -> [balance, nonce] as the EVM adapter reads them
 }
